@@ -75,6 +75,7 @@ PROPS = {
         jobs=[
             dict(harness="hist", prop="hist_c01", cases=(12000, 300000), size=(40, 120)),
             dict(harness="hist", prop="hist_c01big", cases=(600, 20000), size=(40, 150)),
+            dict(harness="hist", prop="hist_c01huge", cases=(64, 3200), size=(40, 60)),
         ],
     ),
     "C02": dict(
